@@ -307,18 +307,20 @@ func (acl *ACL) AuthorizeConnection(conn *net.Conn, cmd []string, command intern
 		return err
 	}
 
-	channels := keys.Channels
-	readKeys := keys.ReadKeys
-	writeKeys := keys.WriteKeys
-
 	if !reflect.DeepEqual(subCommand, internal.SubCommand{}) {
 		comm = fmt.Sprintf("%s|%s", comm, subCommand.Command)
-		categories = append(categories, subCommand.Categories...)
+		// A copy: appending in place could write into the command table's own slice
+		categories = append(append([]string{}, categories...), subCommand.Categories...)
 		keys, err = subCommand.KeyExtractionFunc(cmd)
 		if err != nil {
 			return err
 		}
 	}
+
+	// The keys and channels to authorise are those of the sub-command when there is one
+	channels := keys.Channels
+	readKeys := keys.ReadKeys
+	writeKeys := keys.WriteKeys
 
 	// Skip ack
 	if strings.EqualFold(comm, "ack") {
@@ -346,6 +348,11 @@ func (acl *ACL) AuthorizeConnection(conn *net.Conn, cmd []string, command intern
 	// 1. Check if password is required and if the user is authenticated
 	if acl.Config.RequirePass && !connection.Authenticated {
 		return errors.New("user must be authenticated")
+	}
+
+	// A disabled user can no longer act, even on a connection authenticated before it was disabled
+	if !connection.User.Enabled {
+		return fmt.Errorf("user %s is disabled", connection.User.Username)
 	}
 
 	var notAllowed []string
@@ -414,46 +421,37 @@ func (acl *ACL) AuthorizeConnection(conn *net.Conn, cmd []string, command intern
 		return nil
 	}
 
-	if len(append(readKeys, writeKeys...)) > 0 {
+	if len(readKeys)+len(writeKeys) > 0 {
 		// 7. Check if nokeys is true
 		if connection.User.NoKeys {
 			return errors.New("not authorised to access any keys")
 		}
 
-		// 8. Check if readKeys are in IncludedReadKeys
-		if len(readKeys) > 0 && !slices.ContainsFunc(readKeys, func(key string) bool {
-			return slices.ContainsFunc(connection.User.IncludedReadKeys, func(readKeyGlob string) bool {
-				if acl.GlobPatterns[readKeyGlob].Match(key) {
-					return true
-				}
-				if !slices.Contains(notAllowed, fmt.Sprintf("%s~%s", "%R", key)) {
-					notAllowed = append(notAllowed, fmt.Sprintf("%s~%s", "%R", key))
-				}
-				return false
-			})
-		}) {
-			if len(notAllowed) > 0 {
-				return fmt.Errorf("not authorised to access the following read keys: %+v", notAllowed)
-			}
+		// 8. Check that every read key matches one of IncludedReadKeys
+		if notAllowed = acl.notMatching(readKeys, connection.User.IncludedReadKeys, "%R"); len(notAllowed) > 0 {
+			return fmt.Errorf("not authorised to access the following read keys: %+v", notAllowed)
 		}
 
-		// 9. Check if write keys are in IncludedWriteKeys
-		if len(writeKeys) > 0 && !slices.ContainsFunc(writeKeys, func(key string) bool {
-			return slices.ContainsFunc(connection.User.IncludedWriteKeys, func(writeKeyGlob string) bool {
-				if acl.GlobPatterns[writeKeyGlob].Match(key) {
-					return true
-				}
-				if !slices.Contains(notAllowed, fmt.Sprintf("%s~%s", "%W", key)) {
-					notAllowed = append(notAllowed, fmt.Sprintf("%s~%s", "%W", key))
-				}
-				return false
-			})
-		}) {
+		// 9. Check that every write key matches one of IncludedWriteKeys
+		if notAllowed = acl.notMatching(writeKeys, connection.User.IncludedWriteKeys, "%W"); len(notAllowed) > 0 {
 			return fmt.Errorf("not authorised to access the following write keys: %+v", notAllowed)
 		}
 	}
 
 	return nil
+}
+
+// notMatching lists, as "<prefix>~<key>", the keys that match none of the glob patterns.
+func (acl *ACL) notMatching(keys []string, globs []string, prefix string) []string {
+	var notAllowed []string
+	for _, key := range keys {
+		if !slices.ContainsFunc(globs, func(glob string) bool {
+			return acl.GlobPatterns[glob].Match(key)
+		}) {
+			notAllowed = append(notAllowed, fmt.Sprintf("%s~%s", prefix, key))
+		}
+	}
+	return notAllowed
 }
 
 func (acl *ACL) CompileGlobs() {
